@@ -158,7 +158,7 @@ void check_vec_single(Vec<T, N> const &a, int const mode, T const k, std::index_
       verif::fail("vector::object|construction|" + L, what());
     for (int route = 0; route < 3; ++route)
     {
-      SV w{fcppt::no_init{}};
+      SV w(make_svec<T, N>(Vec<T, N>{}));
       (vec_write_one<T, N, I>(w, a, route), ...);
       Vec<T, N> buf3{};
       vvec<T, N> wv{view_storage<T, N>(buf3.data())};
@@ -174,7 +174,7 @@ void check_vec_single(Vec<T, N> const &a, int const mode, T const k, std::index_
     if (to_arr(ddirect) != a || to_arr(dinited) != a || to_arr(dconverted) != a || to_arr(dassigned) != a) verif::fail("dim::object|construction|" + L, what());
     for (int route = 0; route < 3; ++route)
     {
-      SD w{fcppt::no_init{}};
+      SD w(make_sdim<T, N>(Vec<T, N>{}));
       (dim_write_one<T, N, I>(w, a, route), ...);
       if (to_arr(w) != a) verif::fail("dim::object|element-writes|" + L, what());
     }
